@@ -941,6 +941,14 @@ func c07MoreInstances(add func(*Instance), thorough bool) {
 			}
 		}
 	}
+	// ParOr whose first member shares a FULL run chunk with a copy-on-write clone; the third member has the same key
+	// (the merge takes the chunk "writable"), then the result is mutated inside that chunk
+	for _, op := range []int{16, 18} {
+		for _, mk := range []int{0, 1} {
+			add(&Instance{Func: "VerifC07Op", Params: with(win, "ak", 2, "akeys", 13, "acow", 0, "ac0", 220, "ac1", 21, "bk", 1, "bkeys", 7, "bcow", 0, "bc0", 21,
+				"ck", 2, "ckeys", 13, "ccow", 0, "cc0", 21, "cc1", 21, "emp", 2, "op", op, "mut", 0, "mk", mk, "pre", 1, "xb", 4*65536+56, "xm", 15)})
+		}
+	}
 	// AddMany as the follow-up mutation of a copy-on-write clone (and of its source)
 	cowClone := with(win, "ak", 2, "akeys", 4, "acow", 1, "ac0", 2, "ac1", 1, "bk", 1, "bkeys", 4, "bcow", 0, "bc0", 1, "xb", 0, "xm", 131071)
 	for _, mut := range []int{0, 1, 3} {
